@@ -59,6 +59,32 @@ pub struct Case {
     /// compile through rsass' own FsLoader / CargoLoader code running over the simulated file system
     #[serde(default)]
     pub via: Via,
+    /// import-only look-alikes (`u.import.scss`, `_u.import.scss`, `u/index.import.scss`,
+    /// `u/_index.import.scss`) placed for a load kind that must ignore them: (location, which of the four)
+    #[serde(default)]
+    pub foreign: Vec<(Loc, usize)>,
+    /// a SECOND importer (`w/x2/imp2.scss`) loads the same url with the same kind in the same
+    /// compilation: resolution must not depend on what was resolved before
+    #[serde(default)]
+    pub two: Option<Two>,
+}
+
+#[derive(Clone, Debug, Serialize, Deserialize, PartialEq)]
+pub struct Two {
+    /// candidates that exist next to the second importer
+    pub present2: Vec<usize>,
+    /// the root loads the second importer first
+    pub swap: bool,
+}
+
+fn foreign_names(url: &str) -> Vec<String> {
+    let (base, name) = url.rfind('/').map_or(("", url), |p| url.split_at(p + 1));
+    vec![
+        format!("{base}{name}.import.scss"),
+        format!("{base}_{name}.import.scss"),
+        format!("{base}{name}/index.import.scss"),
+        format!("{base}{name}/_index.import.scss"),
+    ]
 }
 
 fn cand_names(kind: LoadKind, url: &str) -> Vec<String> {
@@ -127,7 +153,21 @@ impl Case {
         for b in self.bases() {
             fs.add_dir(&b);
         }
-        let root = if self.subdir {
+        let root = if let (true, Some(two)) = (self.subdir, &self.two) {
+            let sub = self.sub();
+            fs.add_file(&format!("w/{sub}/imp.scss"), format!("{}i {{ p: imp; }}\n", self.load_stmt()));
+            fs.add_file("w/x2/imp2.scss", format!("{}i2 {{ p: imp2; }}\n", self.load_stmt().replace(" as t;", " as t2;")));
+            for c in &two.present2 {
+                let p = format!("w/x2/{}", cand_names(self.kind, &self.url)[*c]);
+                fs.add_file(&p, format!("c {{ p: \"{p}\"; }}\n"));
+            }
+            let (a, b) = if two.swap { ("x2/imp2".to_string(), format!("{sub}/imp")) } else { (format!("{sub}/imp"), "x2/imp2".to_string()) };
+            if self.kind == LoadKind::Import {
+                format!("@import \"{a}\";\n@import \"{b}\";\nr {{ p: root; }}\n")
+            } else {
+                format!("@use \"{a}\" as i;\n@use \"{b}\" as j;\nr {{ p: root; }}\n")
+            }
+        } else if self.subdir {
             let sub = self.sub();
             fs.add_file(&format!("w/{sub}/imp.scss"), format!("{}i {{ p: imp; }}\n", self.load_stmt()));
             if self.kind == LoadKind::Import {
@@ -141,6 +181,10 @@ impl Case {
         fs.add_file("w/root.scss", root.clone());
         for (l, c) in &self.present {
             let p = self.path_of(*l, *c);
+            fs.add_file(&p, format!("c {{ p: \"{p}\"; }}\n"));
+        }
+        for (l, k) in &self.foreign {
+            let p = format!("{}/{}", self.loc_dir(*l), foreign_names(&self.url)[*k]);
             fs.add_file(&p, format!("c {{ p: \"{p}\"; }}\n"));
         }
         for (l, c) in &self.present_dirs {
@@ -235,6 +279,103 @@ impl Case {
         }
         out
     }
+}
+
+/// All candidate markers of the output, in order.
+fn observed_markers(css: &str) -> Vec<String> {
+    let mut out = vec![];
+    let mut rest = css;
+    while let Some(p) = rest.find("c {").or_else(|| rest.find("c{")) {
+        let r = &rest[p..];
+        let Some(q) = r.find('"') else { break };
+        let r2 = &r[q + 1..];
+        let Some(e) = r2.find('"') else { break };
+        out.push(r2[..e].to_string());
+        rest = &r2[e..];
+    }
+    out
+}
+
+impl Case {
+    /// The case as the second importer sees it: its own directory instead of the first importer's.
+    fn as_second(&self) -> (Case, Vec<usize>) {
+        let two = self.two.clone().expect("two");
+        let mut c = self.clone();
+        c.two = None;
+        c.present.retain(|(l, _)| *l != Loc::Rel);
+        c.foreign.retain(|(l, _)| *l != Loc::Rel);
+        c.present.extend(two.present2.iter().map(|k| (Loc::Rel, *k)));
+        (c, two.present2)
+    }
+    fn as_first(&self) -> Case {
+        let mut c = self.clone();
+        c.two = None;
+        c
+    }
+}
+
+/// Judge a two-importer case: the sequence of distinct candidate files executed must be the one
+/// that independent resolution of the two loads gives (under one admissible reading each).
+fn judge_two(case: &Case, o: &Outcome, base_sig: &str, stats: &mut Stats) -> Judgement {
+    let two = case.two.as_ref().expect("two");
+    let c1 = case.as_first();
+    let (c2, _) = case.as_second();
+    let fix2 = |w: Option<String>| w.map(|p| p.replacen(&format!("{}/", c2.importer_dir()), "w/x2/", 1));
+    let e1: Vec<Option<String>> = c1.expected().into_iter().collect();
+    let e2: Vec<Option<String>> = c2.expected().into_iter().map(&fix2).collect();
+    let m1: Vec<Option<String>> = c1.candidate_major_within_round().into_iter().collect();
+    let m2: Vec<Option<String>> = c2.candidate_major_within_round().into_iter().map(&fix2).collect();
+    stats.inc("probe:two_importers_judged");
+    let seq = |a: &Option<String>, b: &Option<String>| -> Option<Vec<String>> {
+        // None = the compilation must fail with "not found"
+        let (first, second) = if two.swap { (b, a) } else { (a, b) };
+        let (Some(f), Some(s)) = (first, second) else { return None };
+        let mut v = vec![f.clone()];
+        if s != f {
+            v.push(s.clone());
+        }
+        Some(v)
+    };
+    let observed: Option<Vec<String>> = match &o.res {
+        Res::Ok(css) => {
+            let mut v: Vec<String> = vec![];
+            for m in observed_markers(css) {
+                if !v.contains(&m) {
+                    v.push(m);
+                }
+            }
+            Some(v)
+        }
+        Res::Err { text, .. } if text.contains("find stylesheet") || text.contains("not found") => None,
+        other => {
+            return Judgement::fail("wrong_candidate", format!("{base_sig} two_importers=1 observed=othererr"), format!("unexpected result {}", other.short()));
+        }
+    };
+    let matches = |xs: &[Option<String>], ys: &[Option<String>]| xs.iter().any(|a| ys.iter().any(|b| seq(a, b) == observed));
+    if matches(&e1, &e2) {
+        if e1.iter().chain(e2.iter()).any(|w| w.as_ref().is_some_and(|p| !p.starts_with("w/d") && !p.starts_with("w/x2"))) {
+            stats.inc("probe:two_importers_one_falls_back");
+        }
+        return Judgement::Pass;
+    }
+    let mut all1 = e1.clone();
+    all1.extend(m1);
+    let mut all2 = e2.clone();
+    all2.extend(m2);
+    let cm = matches(&all1, &all2);
+    Judgement::fail(
+        "wrong_candidate",
+        format!("{base_sig} two_importers=1 unchanged_url_needed=0 observed_decoy=0 candidate_major_within_round={}", u8::from(cm)),
+        format!(
+            "two importers load {:?} ({}): first expects one of {:?}, second one of {:?} (second loaded first: {}); observed sequence {:?}",
+            case.url,
+            case.kind.letter(),
+            e1,
+            e2,
+            two.swap,
+            observed
+        ),
+    )
 }
 
 #[derive(Debug, PartialEq)]
@@ -367,6 +508,10 @@ pub fn judge(case: &Case, stats: &mut Stats) -> (Judgement, Option<Outcome>) {
     if let Res::Panic(m) = &o.res {
         return (Judgement::fail("no_panic", base_sig, format!("panic: {m}")), Some(o));
     }
+    if case.two.is_some() && case.subdir {
+        let j = judge_two(case, &o, &base_sig, stats);
+        return (j, Some(o));
+    }
     // ---- plain css arm
     if let Some(arg) = &case.plain {
         let must_be_plain = case.plain_file.is_none();
@@ -412,6 +557,9 @@ pub fn judge(case: &Case, stats: &mut Stats) -> (Judgement, Option<Outcome>) {
     };
     let ok = obs_opt.as_ref().is_some_and(|o| exp.contains(o));
     if ok {
+        if !case.foreign.is_empty() {
+            stats.inc("probe:import_only_lookalike_ignored");
+        }
         if let Some(Some(w)) = &obs_opt {
             if w.contains(".import.") {
                 stats.inc("probe:import_only_file_won");
@@ -564,6 +712,8 @@ pub fn case_for(index: u64, tier: Tier, rng: &mut Rng) -> (Case, &'static str) {
                 present_dirs: vec![],
                 plain_nested: false,
                 via: Via::Stub,
+                foreign: vec![],
+                two: None,
             },
             "single_location_exhaustive",
         );
@@ -591,6 +741,8 @@ pub fn case_for(index: u64, tier: Tier, rng: &mut Rng) -> (Case, &'static str) {
                 present_dirs: vec![],
                 plain_nested: nested,
                 via: Via::Stub,
+                foreign: vec![],
+                two: None,
             },
             "plain_css_arm",
         );
@@ -618,6 +770,8 @@ pub fn case_for(index: u64, tier: Tier, rng: &mut Rng) -> (Case, &'static str) {
                 present_dirs: vec![],
                 plain_nested: false,
                 via: Via::Stub,
+                foreign: vec![],
+                two: None,
             },
             "two_locations_use_exhaustive",
         );
@@ -662,11 +816,38 @@ pub fn case_for(index: u64, tier: Tier, rng: &mut Rng) -> (Case, &'static str) {
             }
         }
     }
+    // a second importer in another directory loading the same url (never with decoy directories,
+    // whose known finding F6 would blur the verdict)
+    let has_decoy = locs.iter().any(|l| matches!(l, Loc::DecoyLp1 | Loc::DecoyLp2));
+    let two = if subdir && !has_decoy && rng.chance(1, 3) {
+        // the interesting shape: one importer has no candidate of its own and falls back
+        if rng.chance(1, 2) {
+            present.retain(|(l, _)| *l != Loc::Rel);
+        }
+        let present2: Vec<usize> = if rng.chance(1, 3) { vec![] } else { (0..n).filter(|_| rng.below(8) < density.max(2)).collect() };
+        Some(Two { present2, swap: rng.chance(1, 2) })
+    } else {
+        None
+    };
+    // import-only look-alikes for a kind that must not see them
+    let mut foreign = vec![];
+    if kind != LoadKind::Import && !crate::resolve::has_ext(&url) && !url.contains('.') && rng.chance(1, 3) {
+        for l in &locs {
+            for k in 0..4 {
+                if rng.chance(1, 3) {
+                    foreign.push((*l, k));
+                }
+            }
+        }
+    }
+    let section = if two.is_some() { "two_importers_sampled" } else { "several_locations_sampled" };
     (
         Case {
             kind,
             subdir,
             url,
+            foreign,
+            two,
             present_dirs: {
                 let mut v = vec![];
                 if rng.chance(1, 5) {
@@ -691,7 +872,7 @@ pub fn case_for(index: u64, tier: Tier, rng: &mut Rng) -> (Case, &'static str) {
             dirnames: vec![],
             via: Via::Stub,
         },
-        "several_locations_sampled",
+        section,
     )
 }
 
@@ -852,6 +1033,9 @@ impl Prop for C04 {
             "probe:stub_validated_against_real",
             "probe:judged_through_real_fsloader",
             "probe:judged_through_fsloader_over_simfs",
+            "probe:two_importers_judged",
+            "probe:two_importers_one_falls_back",
+            "probe:import_only_lookalike_ignored",
             "probe:judged_through_cargoloader_over_simfs",
             "probe:import_only_file_won",
             "probe:css_file_won",
